@@ -325,3 +325,444 @@ theorem rt_map (x : Ext) (n : Nat) (env : Env) (kt vt : Ty) (mn mx : Option Int)
   · exact (C02_map_unser_iff x n env kt vt mn mx _ _).mpr ⟨.anyAny, ws, es, rfl, hlw, hu, hd, rfl⟩
 
 end Arca
+
+namespace Arca
+open Out
+
+/-! ### objects -/
+
+/-- every entry of an unserialized property map is the Unserialize result of its (declared,
+    enabled) property's type -/
+def EntriesOK (rec : Rec) (env : Env) (props : List (String × PropT)) (m : List (String × V)) : Prop :=
+  ∀ kv, kv ∈ m → ∃ p d, lookupS kv.1 props = some p ∧ p.disabled = false ∧ rec .U env p.ty d = .ok kv.2
+
+theorem entriesOK_of_allSV {rec : Rec} {env : Env} {props : List (String × PropT)} {m m' : List (String × V)}
+    (h : AllSV (objEntryU rec env props) m m') : EntriesOK rec env props m' := by
+  induction h with
+  | nil => intro kv hkv; simp at hkv
+  | @cons k v v' rest rest' hf _ ih =>
+    intro kv hkv
+    rcases List.mem_cons.mp hkv with heq | hkv'
+    · subst heq
+      unfold objEntryU at hf
+      split at hf
+      · simp [cerr] at hf
+      · rename_i p hp
+        split at hf
+        · simp [cerrAt] at hf
+        · rename_i hd
+          exact ⟨p, v, hp, by simpa using hd, addSeg_eq_ok.mp hf⟩
+    · exact ih kv hkv'
+
+theorem allSV_objEntryU_declared {rec : Rec} {env : Env} {props : List (String × PropT)} {m m' : List (String × V)}
+    (h : AllSV (objEntryU rec env props) m m') : ∀ kv, kv ∈ m → hasKey kv.1 props = true := by
+  induction h with
+  | nil => intro kv hkv; simp at hkv
+  | @cons k v v' rest rest' hf _ ih =>
+    intro kv hkv
+    rcases List.mem_cons.mp hkv with heq | hkv'
+    · subst heq
+      unfold objEntryU at hf
+      split at hf
+      · simp [cerr] at hf
+      · rename_i p hp
+        simp [hasKey, hp]
+    · exact ih kv hkv'
+
+theorem entries_rt {rec : Rec} {env : Env} {props : List (String × PropT)}
+    (hrt : ∀ np, np ∈ props → RT rec env np.2.ty) :
+    ∀ {m' : List (String × V)}, EntriesOK rec env props m' →
+      AllSV (objEntry rec .V env props) m' (m'.map fun kv => (kv.1, unitV)) ∧
+      ∃ m'', AllSV (objEntry rec .S env props) m' m'' ∧ AllSV (objEntryU rec env props) m'' m' := by
+  intro m'
+  induction m' with
+  | nil => intro _; exact ⟨.nil, [], .nil, .nil⟩
+  | cons kv rest ih =>
+    intro hok
+    obtain ⟨k, e⟩ := kv
+    obtain ⟨p, d, hp, hdis, hu⟩ := hok (k, e) (by simp)
+    obtain ⟨hv, w, hs, hu'⟩ := hrt (k, p) (lookupS_mem hp) d e hu
+    obtain ⟨ihv, m'', ihs, ihu⟩ := ih (fun kv hkv => hok kv (List.mem_cons_of_mem _ hkv))
+    refine ⟨.cons ?_ ihv, (k, w) :: m'', .cons ?_ ihs, .cons ?_ ihu⟩
+    · simp only at hp; simp [objEntry, hp, hv, addSeg, done]
+    · simp only at hp; simp [objEntry, hp, hs, addSeg]
+    · simp only at hp; simp [objEntryU, hp, hdis, hu', addSeg]
+
+theorem applyDefaults_id : ∀ (props : List (String × PropT)) (m : List (String × V)),
+    (∀ np, np ∈ props → np.2.defaultV.isSome = true → hasKey np.1 m = true) → applyDefaults props m = .ok m
+  | [], m, _ => by simp [applyDefaults]
+  | (id, p) :: rest, m, h => by
+    have hr := applyDefaults_id rest m (fun np hnp => h np (List.mem_cons_of_mem _ hnp))
+    simp only [applyDefaults]
+    split
+    · exact hr
+    · rename_i hk
+      split
+      · exact hr
+      · rename_i hd
+        have := h (id, p) List.mem_cons_self (by simp [hd])
+        exact absurd this hk
+      · rename_i d hd
+        have := h (id, p) List.mem_cons_self (by simp [hd])
+        exact absurd this hk
+
+/-- result of `objRaw`: the entries are Unserialize results and every defaulted property is present -/
+theorem objRaw_spec {rec : Rec} {env : Env} {props : List (String × PropT)} {v : V} {m' : List (String × V)}
+    (h : objRaw rec env props v = .ok m') :
+    EntriesOK rec env props m' ∧ (∀ np, np ∈ props → np.2.defaultV.isSome = true → hasKey np.1 m' = true) := by
+  unfold objRaw at h
+  split at h
+  · -- shorthand
+    split at h
+    · rename_i name p
+      split at h
+      · simp [plain] at h
+      · rename_i hdis
+        obtain ⟨pv, h1, h2⟩ := bind_eq_ok h
+        simp at h2; subst h2
+        refine ⟨?_, ?_⟩
+        · intro kv hkv
+          simp at hkv; subst hkv
+          exact ⟨p, v, by simp [lookupS], by simpa using hdis, rewrapP_eq_ok.mp h1⟩
+        · intro np hnp _
+          simp at hnp; subst hnp
+          simp [hasKey, lookupS]
+    · simp [cerr] at h
+  · split at h
+    · simp [cerr] at h
+    · rename_i skvs _
+      split at h
+      · simp [cerr] at h
+      · obtain ⟨m, h1, h2⟩ := bind_eq_ok h
+        have hall := forSV_ok_iff.mp h2
+        refine ⟨entriesOK_of_allSV hall, ?_⟩
+        intro np hnp hd
+        rw [hasKey_eq_of_keys (allSV_keys hall)]
+        exact (C03_default_keys props skvs m np.1 h1).mpr (Or.inr ⟨np.2, hnp, hd⟩)
+
+theorem rt_obj (x : Ext) (n : Nat) (env : Env) (id : String) (props : List (String × PropT))
+    (hrt : ∀ np, np ∈ props → RT (run x n) env np.2.ty) : RT (run x (n + 1)) env (.obj id props) := by
+  intro v r h
+  simp only [run, runObj] at h
+  obtain ⟨m', h1, h2⟩ := bind_eq_ok h
+  obtain ⟨_, h3, h4⟩ := bind_eq_ok h2
+  simp at h4; subst h4
+  obtain ⟨hok, hdef⟩ := objRaw_spec h1
+  obtain ⟨hV, m'', hS, hU⟩ := entries_rt hrt hok
+  have hkeys : ∀ k, hasKey k m'' = hasKey k m' := fun k => hasKey_eq_of_keys (allSV_keys hU).symm k
+  have hi'' : interdeps props (fun k => hasKey k m'') = .ok () := by
+    have : (fun k => hasKey k m'') = (fun k => hasKey k m') := funext hkeys
+    rw [this]; exact h3
+  refine ⟨?_, toStrAny m'', ?_, ?_⟩
+  · simp only [run, runObj, toStrAny, MapShape.strAny, strKeys_toStrAny, h3, Out.bind, forSV_ok_iff.mpr hV]
+    simp [done]
+  · simp only [run, runObj, toStrAny, MapShape.strAny, strKeys_toStrAny, h3, Out.bind, forSV_ok_iff.mpr hS]
+    simp
+  · have hdecl : (m''.any fun kv => !hasKey kv.1 props) = false := by
+      cases hh : m''.any fun kv => !hasKey kv.1 props with
+      | false => rfl
+      | true =>
+        obtain ⟨kv, hkv, hk⟩ := List.any_eq_true.mp hh
+        rw [allSV_objEntryU_declared hU kv hkv] at hk
+        simp at hk
+    have hdef'' : applyDefaults props m'' = .ok m'' :=
+      applyDefaults_id props m'' (fun np hnp hd => by rw [hkeys]; exact hdef np hnp hd)
+    simp only [run, runObj, objRaw, toStrAny, MapShape.strAny, V.mapEntries?, strKeys_toStrAny, hdecl,
+      Bool.false_eq_true, if_false, hdef'', Out.bind, forSV_ok_iff.mpr hU, h3]
+
+end Arca
+
+namespace Arca
+open Out
+
+/-! ### one-of (discriminator not inlined) -/
+
+/-- what the one-of level needs to know about a member: its Unserialize results are property maps
+    without the discriminator key, and its Serialize keeps the key set -/
+def MemberOK (rec : Rec) (env : Env) (t : Ty) (disc : String) : Prop :=
+  (∀ v r, rec .U env t v = .ok r → ∃ rm, r = toStrAny rm ∧ hasKey disc rm = false) ∧
+  (∀ rm w, rec .S env t (toStrAny rm) = .ok w → ∃ wm, w = toStrAny wm ∧ ∀ k, hasKey k wm = hasKey k rm)
+
+theorem setKey_absent {α} (k : String) (v : α) (m : List (String × α)) (h : hasKey k m = false) :
+    setKey k v m = m ++ [(k, v)] := by
+  induction m with
+  | nil => rfl
+  | cons p rest ih =>
+    obtain ⟨k', v'⟩ := p
+    simp only [hasKey, lookupS] at h
+    split at h
+    · simp at h
+    · rename_i hne
+      simp only [setKey, hne, List.cons_append]
+      rw [ih (by simpa [hasKey] using h)]
+      rfl
+
+theorem eraseKey_append_self {α} (k : String) (v : α) (m : List (String × α)) (h : hasKey k m = false) :
+    eraseKey k (m ++ [(k, v)]) = m := by
+  induction m with
+  | nil => simp [eraseKey]
+  | cons p rest ih =>
+    obtain ⟨k', v'⟩ := p
+    simp only [hasKey, lookupS] at h
+    split at h
+    · simp at h
+    · rename_i hne
+      simp only [List.cons_append, eraseKey, hne]
+      rw [ih (by simpa [hasKey] using h)]
+      rfl
+
+theorem lookupS_append_absent {α} (k : String) (v : α) (m : List (String × α)) (h : hasKey k m = false) :
+    lookupS k (m ++ [(k, v)]) = some v := by
+  induction m with
+  | nil => simp [lookupS]
+  | cons p rest ih =>
+    obtain ⟨k', v'⟩ := p
+    simp only [hasKey, lookupS] at h
+    split at h
+    · simp at h
+    · rename_i hne
+      simp only [List.cons_append, lookupS, hne]
+      exact ih (by simpa [hasKey] using h)
+
+theorem find_disc_append (disc : String) (d : V) (m : List (String × V)) (h : hasKey disc m = false) :
+    ((m ++ [(disc, d)]).map fun (kv : String × V) => (V.str kv.1, kv.2)).find? (isDiscKey disc) = some (V.str disc, d) := by
+  induction m with
+  | nil => simp [isDiscKey]
+  | cons p rest ih =>
+    obtain ⟨k', v'⟩ := p
+    simp only [hasKey, lookupS] at h
+    split at h
+    · simp at h
+    · rename_i hne
+      have hne' : (k' == disc) = false := by
+        cases hh : (k' == disc) with
+        | false => rfl
+        | true =>
+          have : k' = disc := by simpa using hh
+          subst this
+          simp at hne
+      simp only [List.cons_append, List.map_cons, List.find?_cons, isDiscKey, hne']
+      exact ih (by simpa [hasKey] using h)
+
+theorem key_toV_typed (x : Ext) (intKey : Bool) (d : V) (key : Key) (h : DiscDenotes x intKey d key) :
+    (match key.toV with
+      | .int .int64 n => if intKey then some (Key.i n) else none
+      | .str s => if intKey then none else some (Key.s s)
+      | _ => none) = some key ∧ DiscDenotes x intKey key.toV key := by
+  unfold DiscDenotes at h ⊢
+  by_cases hik : intKey = true
+  · simp only [hik, if_true] at h ⊢
+    obtain ⟨n, hn, hk⟩ := h
+    subst hk
+    exact ⟨by simp [Key.toV], n, .int (intDenotes_inInt64 hn), rfl⟩
+  · simp only [hik, if_false, Bool.false_eq_true] at h ⊢
+    obtain ⟨s, _, hk⟩ := h
+    subst hk
+    exact ⟨by simp [Key.toV], s, .str, rfl⟩
+
+theorem rt_oneOf (x : Ext) (n : Nat) (env : Env) (intKey : Bool) (disc : String) (members : List (Key × Ty))
+    (hrt : ∀ m, m ∈ members → RT (run x n) env m.2)
+    (hmem : ∀ m, m ∈ members → MemberOK (run x n) env m.2 disc) :
+    RT (run x (n + 1)) env (.oneOf intKey disc false members) := by
+  intro v r h
+  -- the input is a map (everything else is rejected)
+  have hvm : ∃ sh kvs, v = .map sh kvs := by
+    simp only [run, runOneOf, oneOfUnser] at h
+    split at h
+    · simp [plain] at h
+    · split at h
+      · simp [cerr] at h
+      · rename_i sh kvs hm
+        cases v <;> simp [V.mapEntries?] at hm
+        obtain ⟨rfl, rfl⟩ := hm
+        exact ⟨_, _, rfl⟩
+  obtain ⟨sh, kvs, rfl⟩ := hvm
+  obtain ⟨hsh, dk, d, key, m, mt, mr, hfind, hkey, hm, hmt, hmr⟩ :=
+    C03_oneof_routes x n env intKey disc false members sh kvs r h
+  have hmm : (key, mt) ∈ members := lookupK_mem hmt
+  obtain ⟨hU, hS⟩ := hmem _ hmm
+  obtain ⟨rm, hrm, hnod⟩ := hU _ _ hmr
+  subst hrm
+  -- the result is the member's map with the converted discriminator attached
+  have hr : r = toStrAny (rm ++ [(disc, key.toV)]) := by
+    have := C03_oneof_accepts x n env intKey disc false members sh kvs dk d key m rm mt hsh hfind hkey hm hmt hmr
+    rw [this] at h
+    simp at h
+    rw [← h, setKey_absent _ _ _ hnod]
+  subst hr
+  obtain ⟨hV, w, hSm, hUw⟩ := hrt _ hmm _ _ hmr
+  obtain ⟨wm, hwm, hwk⟩ := hS _ _ hSm
+  subst hwm
+  have hnodw : hasKey disc wm = false := by rw [hwk]; exact hnod
+  obtain ⟨htyped, hkey'⟩ := key_toV_typed x intKey d key hkey
+  have hsel : ∀ compat, oneOfSelect (run x n) env intKey disc false members compat (rm ++ [(disc, key.toV)]) =
+      (if compat then (rewrapC (run x n .C env mt (toStrAny rm))).bind fun _ => .ok (key, mt, rm) else .ok (key, mt, rm)) := by
+    intro compat
+    simp only [oneOfSelect, lookupS_append_absent _ _ _ hnod, Bool.false_eq_true, if_false,
+      eraseKey_append_self _ _ _ hnod]
+    unfold DiscDenotes at hkey'
+    by_cases hik : intKey = true
+    · simp only [hik, if_true] at hkey'
+      obtain ⟨k, _, hk⟩ := hkey'
+      subst hk
+      simp only [Key.toV, hik, if_true, hmt]
+    · simp only [hik, if_false, Bool.false_eq_true] at hkey'
+      obtain ⟨k, _, hk⟩ := hkey'
+      subst hk
+      simp only [Key.toV, hik, if_false, Bool.false_eq_true, hmt]
+  refine ⟨?_, toStrAny (wm ++ [(disc, key.toV)]), ?_, ?_⟩
+  · simp only [run, runOneOf, toStrAny, MapShape.strAny, strKeys_toStrAny]
+    rw [hsel false]
+    simp only [Bool.false_eq_true, if_false, Out.bind]
+    have : run x n .V env mt (toStrAny rm) = done := hV
+    simp only [toStrAny, MapShape.strAny] at this
+    rw [this]
+    simp [done, addSeg]
+  · simp only [run, runOneOf, toStrAny, MapShape.strAny, strKeys_toStrAny]
+    rw [hsel false]
+    simp only [Bool.false_eq_true, if_false, Out.bind]
+    have : run x n .S env mt (toStrAny rm) = .ok (toStrAny wm) := hSm
+    simp only [toStrAny, MapShape.strAny] at this
+    rw [this]
+    simp only [strKeys_toStrAny, hnodw, Bool.false_eq_true, if_false]
+  · have hfind' := find_disc_append disc key.toV wm hnodw
+    have := C03_oneof_accepts x n env intKey disc false members .strAny
+      ((wm ++ [(disc, key.toV)]).map fun (kv : String × V) => (V.str kv.1, kv.2))
+      (V.str disc) key.toV key (wm ++ [(disc, key.toV)]) rm mt (Or.inr rfl) hfind' hkey'
+      (strKeys_toStrAny _) hmt (by
+        simp only [Bool.false_eq_true, if_false, eraseKey_append_self _ _ _ hnodw]
+        exact hUw)
+    simp only [toStrAny] at this ⊢
+    rw [this, setKey_absent _ _ _ hnod]
+
+end Arca
+
+namespace Arca
+open Out
+
+/-! ### the induction over the schema -/
+
+/-- does the object denoted by an object-like schema declare the property `disc`? -/
+def declares (env : Env) (disc : String) : Ty → Prop
+  | .obj _ props => hasKey disc props = true
+  | .ref id => ∃ oid ps, lookupS id env = some (.obj oid ps) ∧ hasKey disc ps = true
+  | .scope objs root => ∃ oid ps, lookupS root objs = some (.obj oid ps) ∧ hasKey disc ps = true
+  | _ => False
+
+/-- Schemas covered by the round-trip theorem: as `WF`, with one-ofs whose discriminator is not
+    inlined (and whose members, as `ApplyNamespace` checks, do not declare the discriminator). -/
+inductive WF1 : Env → Ty → Prop
+  | int {env a b u} : WF1 env (.int a b u)
+  | float {env a b u} : WF1 env (.float a b u)
+  | str {env a b p} : WF1 env (.str a b p)
+  | bool {env} : WF1 env .bool
+  | pattern {env} : WF1 env .pattern
+  | enumInt {env vs u} : WF1 env (.enumInt vs u)
+  | enumStr {env vs} : WF1 env (.enumStr vs)
+  | any {env} : WF1 env .any
+  | list {env item a b} : WF1 env item → WF1 env (.list item a b)
+  | map {env k v a b} : WF1 env k → WF1 env v → WF1 env (.map k v a b)
+  | obj {env id props} : (∀ np, np ∈ props → WF1 env np.2.ty) → WF1 env (.obj id props)
+  | oneOf {env ik d members} :
+      (∀ m, m ∈ members → WF1 env m.2) → (∀ m, m ∈ members → ObjLike env m.2) →
+      (∀ m, m ∈ members → ¬ declares env d m.2) → WF1 env (.oneOf ik d false members)
+  | ref {env id o} : lookupS id env = some o → WF1 env (.ref id)
+  | scope {env objs root o} :
+      lookupS root objs = some o → (∀ p, p ∈ objs → WF1 objs p.2) → WF1 env (.scope objs root)
+
+def EnvWF1 (env : Env) : Prop := ∀ p, p ∈ env → WF1 env p.2
+
+theorem mem_of_hasKey {α} {k : String} {m : List (String × α)} (h : hasKey k m = true) : ∃ v, (k, v) ∈ m := by
+  simp only [hasKey] at h
+  cases hl : lookupS k m with
+  | none => simp [hl] at h
+  | some v => exact ⟨v, lookupS_mem hl⟩
+
+theorem memberOK_obj (x : Ext) (n : Nat) (env : Env) (id : String) (props : List (String × PropT)) (disc : String)
+    (hnd : ¬ hasKey disc props = true) : MemberOK (run x (n + 1)) env (.obj id props) disc := by
+  constructor
+  · intro v r h
+    simp only [run, runObj] at h
+    obtain ⟨m', h1, h2⟩ := bind_eq_ok h
+    obtain ⟨_, _, h4⟩ := bind_eq_ok h2
+    simp at h4; subst h4
+    refine ⟨m', rfl, ?_⟩
+    obtain ⟨hok, _⟩ := objRaw_spec h1
+    cases hk : hasKey disc m' with
+    | false => rfl
+    | true =>
+      obtain ⟨e, he⟩ := mem_of_hasKey hk
+      obtain ⟨p, _, hp, _, _⟩ := hok _ he
+      exact absurd (by simp [hasKey, hp]) hnd
+  · intro rm w h
+    simp only [run, runObj, toStrAny, MapShape.strAny, strKeys_toStrAny] at h
+    obtain ⟨_, _, h2⟩ := bind_eq_ok h
+    obtain ⟨wm, h3, h4⟩ := bind_eq_ok h2
+    simp at h4
+    exact ⟨wm, by simp [toStrAny, MapShape.strAny, h4], fun k => hasKey_eq_of_keys (allSV_keys (forSV_ok_iff.mp h3)) k⟩
+
+theorem rt_aux (x : Ext) : ∀ (n : Nat) (env : Env) (t : Ty), EnvWF1 env → WF1 env t →
+    RT (run x n) env t ∧ (ObjLike env t → ∀ disc, ¬ declares env disc t → MemberOK (run x n) env t disc)
+  | 0, env, t, _, _ => by
+    refine ⟨fun v r h => by simp [run] at h, fun _ disc _ => ⟨fun v r h => by simp [run] at h, fun rm w h => by simp [run] at h⟩⟩
+  | n + 1, env, t, henv, hwf => by
+    have ih := rt_aux x n
+    cases hwf with
+    | int => exact ⟨rt_int x n env _ _ _, fun h => by simp [ObjLike] at h⟩
+    | float => exact ⟨rt_float x n env _ _ _, fun h => by simp [ObjLike] at h⟩
+    | str => exact ⟨rt_str x n env _ _ _, fun h => by simp [ObjLike] at h⟩
+    | bool => exact ⟨rt_bool x n env, fun h => by simp [ObjLike] at h⟩
+    | pattern => exact ⟨rt_pattern x n env, fun h => by simp [ObjLike] at h⟩
+    | enumInt => exact ⟨rt_enumInt x n env _ _, fun h => by simp [ObjLike] at h⟩
+    | enumStr => exact ⟨rt_enumStr x n env _, fun h => by simp [ObjLike] at h⟩
+    | any => exact ⟨rt_any x n env, fun h => by simp [ObjLike] at h⟩
+    | list hi => exact ⟨rt_list x n env _ _ _ (ih env _ henv hi).1, fun h => by simp [ObjLike] at h⟩
+    | map hk hv =>
+      exact ⟨rt_map x n env _ _ _ _ (ih env _ henv hk).1 (ih env _ henv hv).1, fun h => by simp [ObjLike] at h⟩
+    | obj hp =>
+      refine ⟨rt_obj x n env _ _ (fun np hnp => (ih env _ henv (hp np hnp)).1), fun _ disc hnd => ?_⟩
+      exact memberOK_obj x n env _ _ disc (by simpa [declares] using hnd)
+    | oneOf hm ho hd =>
+      refine ⟨?_, fun h => by simp [ObjLike] at h⟩
+      exact rt_oneOf x n env _ _ _ (fun m hmm => (ih env _ henv (hm m hmm)).1)
+        (fun m hmm => (ih env _ henv (hm m hmm)).2 (ho m hmm) _ (hd m hmm))
+    | ref hl =>
+      rename_i id o
+      have ho : WF1 env o := henv _ (lookupS_mem hl)
+      obtain ⟨hrt, hmo⟩ := ih env o henv ho
+      have hrun : ∀ op v, run x (n + 1) op env (.ref id) v = run x n op env o v := by
+        intro op v; simp [run, hl]
+      refine ⟨?_, fun hobj disc hnd => ?_⟩
+      · intro v r h
+        rw [hrun] at h
+        obtain ⟨h1, w, h2, h3⟩ := hrt v r h
+        exact ⟨by rw [hrun]; exact h1, w, by rw [hrun]; exact h2, by rw [hrun]; exact h3⟩
+      · obtain ⟨oid, ps, hl'⟩ := hobj
+        rw [hl] at hl'
+        cases hl'
+        have hnd' : ¬ declares env disc (.obj oid ps) := by
+          intro hd
+          exact hnd ⟨oid, ps, hl, hd⟩
+        obtain ⟨m1, m2⟩ := hmo (by simp [ObjLike]) disc hnd'
+        exact ⟨fun v r h => m1 v r (by rw [hrun] at h; exact h), fun rm w h => m2 rm w (by rw [hrun] at h; exact h)⟩
+    | scope hl hobjs =>
+      rename_i objs root o
+      have ho : WF1 objs o := hobjs _ (lookupS_mem hl)
+      obtain ⟨hrt, hmo⟩ := ih objs o hobjs ho
+      have hrun : ∀ op v, run x (n + 1) op env (.scope objs root) v = run x n op objs o v := by
+        intro op v; simp [run, hl]
+      refine ⟨?_, fun hobj disc hnd => ?_⟩
+      · intro v r h
+        rw [hrun] at h
+        obtain ⟨h1, w, h2, h3⟩ := hrt v r h
+        exact ⟨by rw [hrun]; exact h1, w, by rw [hrun]; exact h2, by rw [hrun]; exact h3⟩
+      · obtain ⟨oid, ps, hl'⟩ := hobj
+        rw [hl] at hl'
+        cases hl'
+        have hnd' : ¬ declares objs disc (.obj oid ps) := by
+          intro hd
+          exact hnd ⟨oid, ps, hl, hd⟩
+        obtain ⟨m1, m2⟩ := hmo (by simp [ObjLike]) disc hnd'
+        exact ⟨fun v r h => m1 v r (by rw [hrun] at h; exact h), fun rm w h => m2 rm w (by rw [hrun] at h; exact h)⟩
+
+end Arca
